@@ -286,6 +286,15 @@ class MVL(MoveInstruction):
             ):
                 dst_func = il.sub
 
+            if (
+                isinstance(dst, EMemValueOffsetHelper)
+                and isinstance(dst.value, RegIncrementDecrementHelper)
+                and dst.value.mode == EMemRegMode.PRE_DEC
+            ):
+                # MVL [--r3],(n): the documented transfer is [--d] <- [s++], so the
+                # destination descends together with r3.
+                dst_func = il.sub
+
             # Update destination address with wrapping for IMem8
             self._update_address_with_wrap(il, dst_reg, dst_func, dst)
 
